@@ -303,9 +303,16 @@ def setter_histories(rep, rng, nhist, sts):
     cases, metas = [], []
     for hi in range(nhist):
         cfg = render.cfg_with()
-        cur = {"dec": cfg["dec"], "tho": cfg["tho"]}
+        two = hi % 3 == 2          # every third history: two calculators alive in the process, each with format settings of its own
+        curs = {1: {"dec": cfg["dec"], "tho": cfg["tho"]}, 2: {"dec": cfg["dec"], "tho": cfg["tho"]}}
+        on = 1
         steps, evs = [], []
-        for k in range(30):
+        for k in range(30 + (15 if two else 0)):
+            if two and rng.random() < 0.3:
+                evs.append({"ev": "switch", "from": on, "to": 3 - on})
+                on = 3 - on
+            cur = curs[on]
+            n0 = len(steps)
             x = rng.random()
             st = rng.choice(sts)
             if x < 0.12:
@@ -321,7 +328,7 @@ def setter_histories(rep, rng, nhist, sts):
                 d, t = rng.choice(SEPS)
                 steps += [{"op": "set_dec", "v": d}, {"op": "set_tho", "v": t}]
                 evs += [{"ev": "set_dec", "v": d}, {"ev": "set_tho", "v": t}]
-                cur = {"dec": d, "tho": t}
+                curs[on] = {"dec": d, "tho": t}
             else:
                 ip = str(rng.choice([0, 7, 99, 999, 1000, 12345, 999999, 1234567]))
                 fp = "".join(rng.choice("0459") for _ in range(rng.randint(0, 4)))
@@ -331,16 +338,25 @@ def setter_histories(rep, rng, nhist, sts):
                 it = item_for(sh, cur, kind, extra)
                 steps.append({"op": "execute", "lang": "en", "text": it["text"]})
                 evs.append({"ev": "format", "_it": it})
-        cases.append({"id": "fh%d" % hi, "cfg": cfg, "want": ["dec"], "steps": steps, "fresh": True})
+            if on == 2:
+                for s_ in steps[n0:]:
+                    s_["calc"] = 2
+        case = {"id": "fh%d" % hi, "cfg": cfg, "want": ["dec"], "steps": steps, "fresh": True}
+        if two:
+            case["two"] = True
+        cases.append(case)
         metas.append(evs)
     obs = run_harness_stable_day(cases, "c07.hist", jobs=8)
     cur_tab = render.config_json()["currencies"]
     events, index = [], []
     for case, evs, o in zip(cases, metas, obs):
-        events.append(reset_event(case["cfg"], 0))
+        events.append(reset_event(case["cfg"], 0, extra={"two": True} if case.get("two") else None))
         index.append(None)
         steps = o.get("steps") or []
-        for k, e in enumerate(evs):
+        k = -1
+        for e in evs:
+            if e["ev"] != "switch":      # a switch is an event of the trace, not a call
+                k += 1
             if e["ev"] != "format":
                 events.append(e)
                 index.append(None)
